@@ -55,7 +55,7 @@ func Load(cfg LoadConfig) (*Program, error) {
 	}
 	prog, _ := ssautil.AllPackages(pkgs, ssa.InstantiateGenerics)
 	prog.Build()
-	p := &Program{Prog: prog, Interp: interpPkg, FileHash: map[string]string{}, Intrinsic: map[string]Intrinsic{}, GoStub: map[string]*ssa.Function{}}
+	p := &Program{Prog: prog, Interp: interpPkg, FileHash: map[string]string{}, Intrinsic: map[string]Intrinsic{}, GoStub: map[string]*ssa.Function{}, Summary: map[string]*ssa.Function{}}
 	packages.Visit(pkgs, nil, func(pp *packages.Package) {
 		if !interpPkg(pp.PkgPath) {
 			return
